@@ -55,9 +55,10 @@ def strip_comments(src):
     return src
 
 
-def lean_side(prop):
-    """Regenerate GfaGen, build, audit. Returns dict with per-obligation status."""
-    res = {"regen_ok": False, "model_ok": False, "modules": {}, "theorems": {}, "log": []}
+def lean_side(prop, tier="quick"):
+    """Regenerate GfaGen, build, audit (thorough tier: re-check the compiled modules with leanchecker, the toolchain's
+    independent re-checker of .olean files). Returns dict with per-obligation status."""
+    res = {"regen_ok": False, "model_ok": False, "modules": {}, "theorems": {}, "log": [], "leanchecker": None}
     lock = open(os.path.join(LEAN_DIR, ".check.lock"), "w")
     fcntl.flock(lock, fcntl.LOCK_EX)
     try:
@@ -79,6 +80,16 @@ def lean_side(prop):
             res["modules"][m] = {"ok": ok, "errors": [l for l in out.splitlines() if l.startswith("error")][:10]}
             if not ok:
                 res["log"].append("module %s failed:\n%s" % (m, out[-3000:]))
+        if tier == "thorough":
+            built_now = [m for m in prop.LEAN["modules"] if res["modules"][m]["ok"]]
+            if built_now:
+                rc, out = run(["lake", "env", "leanchecker"] + built_now, cwd=LEAN_DIR, timeout=3000)
+                res["leanchecker"] = {"ok": rc == 0, "modules": built_now, "output": out[-1500:]}
+                if rc != 0:
+                    # the independent re-check of the compiled proofs failed: none of these modules counts as built
+                    for m in built_now:
+                        res["modules"][m] = {"ok": False, "errors": ["leanchecker: " + out[-300:]]}
+                    res["log"].append("leanchecker failed:\n" + out[-3000:])
         # forbidden tokens
         bad = []
         for m in prop.LEAN["modules"] + prop.LEAN.get("support", []):
@@ -323,7 +334,7 @@ def main():
 
     # ---- lean
     try:
-        lean = lean_side(prop)
+        lean = lean_side(prop, tier)
     except subprocess.TimeoutExpired:
         log("lean build timed out"); sys.exit(2)
     if not lean["model_ok"]:
@@ -423,12 +434,14 @@ def main():
         "property_id": pid, "tier": tier, "seed": seed, "level": "proof",
         "coverage": {
             "obligations": len(obligations), "discharged": len(discharged),
-            "checker_cmd": "cd lean && lake build %s && lake env lean <#print axioms of every obligation>" % " ".join(prop.LEAN["modules"]),
+            "checker_cmd": ("cd lean && lake build %s && lake env lean <#print axioms of every obligation>" % " ".join(prop.LEAN["modules"])) +
+                           (" && lake env leanchecker <the same modules>" if tier == "thorough" else ""),
             "trusted_base": ["Lean 4.33.0 kernel", "axioms: propext, Classical.choice, Quot.sound (per theorem below)",
                              "translator/extract.py (GfaGen regenerated from /repo on this run)",
                              "harness correspondence + python oracle (differential testing, bounded)"] + list(getattr(prop, "TRUSTED", [])),
             "theorems": {t: lean["theorems"].get(t) for t in obligations},
             "bridge_modules": lean["modules"],
+            "leanchecker": lean.get("leanchecker"),
             "evaluations": len(results_for_evidence),
             "distinct_nontrivial": len(hashes),
             "rule": getattr(prop, "RULE", ""),
